@@ -81,3 +81,65 @@ func H_C09() {
 	vAssert(cnt == exp, "every visible item >= seek key is observed exactly once, then Valid turns false")
 	vReach("c09-done")
 }
+
+// H_C09_vis: the visibility rule, decided for ALL snapshot numbers at once. Three physically present items with
+// concrete ascending keys carry symbolic (bornSn, deadSn) stamps (bornSn >= 1; deadSn == 0 or deadSn > bornSn, as
+// writers produce them); the iterator runs on a snapshot object with a symbolic sn. An item is visible iff
+// bornSn <= sn and (deadSn == 0 or deadSn > sn). SeekFirst/Seek(x)/Next must deliver exactly the visible items
+// with key >= x in order, for every refresh rate 0..2. This is one step from an arbitrary version state: it covers
+// every history that leads to three physical versions, whatever the epochs involved.
+func H_C09_vis() {
+	cfg, c := vConfig()
+	db := NewWithConfig(cfg)
+	ws := vWriters(db, 1)
+	keys := [3]byte{10, 21, 30} // with vlens > 1 the middle item is two bytes long
+	var born, dead [3]uint32
+	var vis [3]bool
+	sn := vU32("sn", 0)
+	vAssume(sn >= 1)
+	for i := 0; i < 3; i++ {
+		n := ws[0].Put2(c.item(keys[i], byte(i+1)))
+		itm := (*Item)(n.Item())
+		born[i], dead[i] = vU32("born", i), vU32("dead", i)
+		vAssume(born[i] >= 1)
+		vAssume(vOr(dead[i] == 0, dead[i] > born[i]))
+		itm.bornSn, itm.deadSn = born[i], dead[i]
+		vis[i] = vAnd(born[i] <= sn, vOr(dead[i] == 0, dead[i] > sn))
+	}
+	snap := &Snapshot{db: db, sn: sn, refCount: 1}
+	seek := vChoice("seek", 0, 2) == 1
+	x := byte(0)
+	if seek {
+		x = vByte("x", 0)
+	}
+	it := db.NewIterator(snap)
+	vAssert(it != nil, "iterator on an open snapshot")
+	it.SetRefreshRate(vRange("rate", 0, 0, 2))
+	if seek {
+		it.Seek(c.item(x, 0))
+	} else {
+		it.SeekFirst()
+	}
+	everywhere := vChoice("refresheverywhere", 0, 2) == 1
+	for i := 0; i < 3; i++ {
+		want := vAnd(vis[i], keys[i] >= x)
+		if everywhere {
+			it.Refresh() // an explicit Refresh at every position must not change what is observed
+		}
+		// the scan is at item i now iff item i is wanted; consume it if so
+		if it.Valid() {
+			k, _, ok := c.decode(it.Get())
+			vAssert(ok, "item bytes have the expected shape")
+			if k == int(keys[i]) {
+				vAssert(want, "delivered item is visible in the snapshot and >= the seek key")
+				it.Next()
+				continue
+			}
+			vAssert(k > int(keys[i]), "scan order: never an item below the expected position")
+		}
+		vAssert(vNot(want), "every visible item (>= the seek key) is delivered")
+	}
+	vAssert(!it.Valid(), "Valid is false exactly after the last visible item")
+	it.Close()
+	vReach("c09-vis-done")
+}
